@@ -215,6 +215,17 @@ structure AsrROut where
   next : Option Nat
   deriving Repr
 
+/-- the passes of `ParsimonyAsr(…, true)` after the up-pass, all sites in lockstep, on the tree `te` the passes start
+    from: the per-site results of the deterministic first stage side by side, then the random second stage -/
+def asrRAM (te : T) (m : List (String × String)) (len : Nat) (algo : Algo) (st : List Nat) : AM × List Nat :=
+  let start : List A := (List.range len).map fun j =>
+    if algo == .acctran then upA 6 (asrTipVec m j) te else down 6 (asrTipVec m j) none te
+  let am := amOf te start
+  match algo with
+  | .downpass => resolveAM 6 am st
+  | .deltran => deltranRM 6 none am st
+  | _ => acctranRM 6 none am st
+
 /-- `ParsimonyAsr(t, a, algo, true)`, nucleotides, root not a Go tip -/
 def asrR (t : T) (m : List (String × String)) (len : Nat) (algo : Algo) (st : List Nat) : Option AsrROut :=
   if algo == .none then none else
@@ -228,13 +239,7 @@ def asrR (t : T) (m : List (String × String)) (len : Nat) (algo : Algo) (st : L
   else
   let te := if t.kids.length == 1 then rootAtNeighbour t else t
   let steps := sites.map fun j => upN 6 (asrTipVec m j) te
-  let start : List A := sites.map fun j =>
-    if algo == .acctran then upA 6 (asrTipVec m j) te else down 6 (asrTipVec m j) none te
-  let am := amOf te start
-  let r := match algo with
-    | .downpass => resolveAM 6 am st
-    | .deltran => deltranRM 6 none am st
-    | _ => acctranRM 6 none am st
+  let r := asrRAM te m len algo st
   let fl := r.1.flat.map fun ss => ss.map (stateNames asrAlphabet)
   some ⟨steps ++ [0], if t.kids.length == 1 then backOrder fl else fl, r.2.head?⟩
 
